@@ -59,13 +59,14 @@ def tracks_of(spec):
 
 
 def run_case(rec, spec, variant, rng, oracles=("C01", "C02", "C05", "C06", "C12"), tag="random",
-             scr_k=1, regen=None):
-    """execute one block case against the real code and evaluate the oracles"""
+             scr_k=1, regen=None, obj=None, case_override=None):
+    """execute one block case against the real code and evaluate the oracles.
+    obj: an already existing library object whose current state is described by spec (in-place edit workload)"""
     kind = spec["t"]
-    case = {"driver": "codec", "spec": spec, "variant": variant}
+    case = case_override or {"driver": "codec", "spec": spec, "variant": variant}
     small = len(str(spec)) < 4000
-    casek = case if small else {"driver": "codec", "spec_hash": jhash(spec), "regen": regen,
-                                "variant": variant, "note": "spec too large to inline; regenerated on replay"}
+    casek = case if (small or case_override) else {"driver": "codec", "spec_hash": jhash(spec), "regen": regen,
+                                                   "variant": variant, "note": "spec too large to inline; regenerated on replay"}
     ni = lib.nitems(spec)
     h = rec.case({"s": jhash(spec), "v": variant}, nontrivial=ni > 0,
                  sample={"kind": kind, "variant": variant, "spec": _brief(spec)} if rec.evaluations % 97 == 0 else None)
@@ -78,7 +79,7 @@ def run_case(rec, spec, variant, rng, oracles=("C01", "C02", "C05", "C06", "C12"
             rec.violation(prop, f"{kind}:{key}", msg, casek)
 
     try:
-        b = lib.build(spec, variant)
+        b = obj if obj is not None else lib.build(spec, variant)
     except Exception as e:
         rec.count("build_refused")
         rec.note(f"constructor refused a generated valid {kind} spec: {type(e).__name__}: {e}")
@@ -231,6 +232,43 @@ def run_case(rec, spec, variant, rng, oracles=("C01", "C02", "C05", "C06", "C12"
                 rec.count("c12:equal-content-compares-unequal(C14-territory)")
 
 
+
+
+def run_edit_case(rec, spec, variant, edit_seed, n_edits, oracles, scr_k=1):
+    """build, use once (encode / size / compare - whatever might be cached), then edit in place through the
+    public attributes and demand every codec property of the new state"""
+    from . import edits
+    erng = random.Random(edit_seed)
+    rng = random.Random(edit_seed ^ 0x5EED)
+    try:
+        b = lib.build(spec, variant)
+        lib.enc(b); int(b.nBytes)
+        try:
+            bool(b == b)
+        except Exception:
+            pass
+    except Exception:
+        return
+    cur = spec
+    for k in range(n_edits):
+        try:
+            r = edits.inplace_edit(erng, b, cur)
+        except Exception as e:
+            rec.count(f"edit-refused:{type(e).__name__}")
+            return
+        if r is None:
+            continue
+        name, cur = r
+        rec.count(f"edit:{name}")
+        case = {"driver": "codec-edit", "spec": spec if len(str(spec)) < 6000 else None, "variant": variant,
+                "edit_seed": edit_seed, "n_edits": k + 1, "last_edit": name}
+        run_case(rec, cur, variant, rng, oracles, "in-place-edit", scr_k, obj=b, case_override=case)
+        try:
+            bool(b == b)
+        except Exception:
+            pass
+
+
 # ------------------------------------------------------------------------------------------------
 # shard kinds
 # ------------------------------------------------------------------------------------------------
@@ -238,6 +276,7 @@ def shard_random(desc, rec):
     codec_mon.install(rec)
     rng = random.Random(desc["seed"] * 1000003 + desc["shard"])
     grng = random.Random(desc["seed"] * 1000003 + desc["shard"] + 500009)
+    sel = random.Random(desc["seed"] * 1000003 + desc["shard"] + 700001)
     kinds = desc.get("kinds", gen.KINDS)
     n = desc.get("n", 100)
     deadline = time.time() + desc["budget_s"] if desc.get("budget_s") else None
@@ -253,6 +292,9 @@ def shard_random(desc, rec):
         run_case(rec, spec, variant, rng, tuple(desc["oracles"]), "random", desc.get("scr_k", 1),
                  regen={"seed": desc["seed"], "shard": desc["shard"], "index": i, "kinds": kinds,
                         "big": desc.get("big", False)})
+        if sel.random() < 0.4 and len(str(spec)) < 20000:
+            run_edit_case(rec, spec, variant, sel.getrandbits(48), sel.choice([1, 2, 3]), tuple(desc["oracles"]),
+                          desc.get("scr_k", 1))
         i += 1
 
 
@@ -446,7 +488,9 @@ def run_shard(desc, rec):
 def replay(case, rec, oracles):
     codec_mon.install(rec)
     rng = random.Random(0)
-    if case.get("driver") == "codec" and "spec" in case:
+    if case.get("driver") == "codec-edit" and case.get("spec"):
+        run_edit_case(rec, case["spec"], case["variant"], case["edit_seed"], case["n_edits"], oracles, 2)
+    elif case.get("driver") == "codec" and "spec" in case:
         run_case(rec, case["spec"], case["variant"], rng, oracles, "replay", 3)
     elif case.get("driver") == "codec-capture":
         shard_capture({"seed": 0, "oracles": list(oracles)}, rec)
